@@ -17,6 +17,7 @@ let proto_of = function
   | "lindell17-secondary" -> PLindell17Secondary
   | "ot-sender" -> POtSender | "ot-receiver" -> POtReceiver
   | "vole-alice" -> PVoleAlice | "vole-bob" -> PVoleBob
+  | "otext-receiver" -> POtExtReceiver | "otext-sender" -> POtExtSender
   | s -> failwith ("unknown protocol " ^ s)
 
 let site_name = function
@@ -34,7 +35,7 @@ let cfg_of n d w xi l rho pail =
 
 (* run-length compressed rows: site.idx:s|r[!]:len*count  (! = rejection sampled: count is a minimum) *)
 let show_rows rows =
-  let key (((s, i), k), len) = Printf.sprintf "%s.%s:%s:%s" (site_name s) (z_to_string i) ((if k then "s" else "r") ^ (if retry_site s then "!" else "")) (z_to_string len) in
+  let key (((s, i), k), len) = Printf.sprintf "%s.%s:%s:%s" (site_name s) (z_to_string i) ((if k then "s" else "r") ^ (if retry_site s then "!" else "") ^ (if discarded_site s i then "~" else "")) (z_to_string len) in
   let rec go acc cur cnt = function
     | [] -> (match cur with None -> acc | Some c -> (c, cnt) :: acc)
     | r :: rest ->
